@@ -21,13 +21,13 @@ def scapy_from_bytes(raw, v):
     return (ScapyIP if v == 4 else ScapyIPv6)(raw)
 
 
-def load_db(text):
+def load_db(text, db=None):
     os.makedirs(_TMP, exist_ok=True)
     fd, path = tempfile.mkstemp(suffix=".fp", dir=_TMP)
     try:
         with os.fdopen(fd, "w", encoding="utf-8", newline="") as f:
             f.write(text)
-        db = Database()
+        db = Database() if db is None else db
         db.load(path)
         return db
     finally:
